@@ -31,6 +31,7 @@ func propC01(w *World, r *Run) {
 	ruleProofArgs(w, r, a, "C01.b")
 	ruleSameHandle(w, r, a, "C01.c")
 	ruleSoleWriter(w, r, "C01.d")
+	ruleNotFoundExact(w, r, "C01.e")
 }
 
 func propC02(w *World, r *Run) {
@@ -60,6 +61,7 @@ func propC04(w *World, r *Run) {
 	r.trusted = append(tbCommon, "x/mod note.Sign: text preserved, one signature per signer; formats/note cosignature/v1 signer reads the clock inside Sign")
 	a := analyseUpdate(w, r)
 	ruleReturnIsStored(w, r, a, "C04.a")
+	ruleCommitBeforeAck(w, r, "C04.a")
 	ruleStoredIsCosigned(w, r, a, "C04.b")
 	ruleFreshNoShortCircuit(w, r, a, "C04.c")
 	ruleReadVerbatim(w, r, "C04.d")
@@ -74,6 +76,7 @@ func propC07(w *World, r *Run) {
 	ruleTofuOnlyOnNotFound(w, r, a, "C07.a")
 	ruleCloseAlways(w, r, a, "C07.b")
 	ruleErrNotDropped(w, r, a, "C07.c")
+	ruleNoNestedStorage(w, r, a, "C07.g")
 	ruleStorageErrDiscipline(w, r, "C07.c")
 	ruleNotFoundExact(w, r, "C07.d")
 	ruleAdapter(w, r, "C07.e")
@@ -87,6 +90,10 @@ func propC08(w *World, r *Run) {
 	a := analyseUpdate(w, r)
 	ruleStoredReopenable(w, r, a, "C08.a")
 	ruleHonestStep(w, r, a, "C08.b")
+	ruleCloseAlways(w, r, a, "C08.c")
+	ruleNoNestedStorage(w, r, a, "C08.c")
+	ruleCloseIsRollback(w, r, "C08.c")
+	ruleNoLeakedTx(w, r, "C08.c")
 }
 
 func propC09(w *World, r *Run) {
@@ -128,6 +135,7 @@ func propC05(w *World, r *Run) {
 	ruleGlobals(w, r, "C05.f", []string{pWitness, pBastion, pRest, pMon})
 	ruleImmut(w, r, "C05.f", immutCore)
 	ruleNoInplace(w, r, a, "C05.g")
+	ruleNoNestedStorage(w, r, a, "C05.h")
 }
 
 func propC06(w *World, r *Run) {
@@ -200,6 +208,8 @@ func propC16(w *World, r *Run) {
 	ruleReadVerbatim(w, r, "C16.a")
 	ruleLogsFromKeys(w, r, "C16.d")
 	ruleNotFoundExact(w, r, "C16.b")
+	ruleReturnIsStored(w, r, analyseUpdate(w, r), "C16.f")
+	ruleCommitBeforeAck(w, r, "C16.f")
 }
 
 func init() {
@@ -219,6 +229,7 @@ func propC12(w *World, r *Run) {
 	ruleOneStatement(w, r, "C12.b")
 	ruleIDDerivation(w, r, "C12.c")
 	ruleConfigKeying(w, r, "C12.c")
+	ruleAuthBeforeUse(w, r, a, "C12.f")
 	ruleOneWitness(w, r, "C12.d")
 	ruleGlobals(w, r, "C12.e", []string{pWitness, pBastion, pRest, pMon, pInmem, pSQL, pOmni, pConfig, pFeeder})
 	ruleImmut(w, r, "C12.e", immutCore)
@@ -231,6 +242,13 @@ func propC14(w *World, r *Run) {
 	ruleOneWitness(w, r, "C14.a")
 	ruleEveryFeeder(w, r, "C14.b")
 	ruleNeverGivesUp(w, r, "C14.c")
+	// "stops at a fork" / "keeps following": the guard that refuses a fork, and nothing that can wedge the shared witness
+	a := analyseUpdate(w, r)
+	ruleAcceptGuard(w, r, a, "C14.d")
+	ruleNotFoundExact(w, r, "C14.d")
+	ruleNoNestedStorage(w, r, a, "C14.e")
+	ruleCloseAlways(w, r, a, "C14.e")
+	ruleCloseIsRollback(w, r, "C14.e")
 }
 
 func init() {
@@ -247,6 +265,7 @@ func propC17(w *World, r *Run) {
 	ruleEveryFeeder(w, r, "C17.b")
 	ruleOneWitness(w, r, "C17.b")
 	ruleConfigKeying(w, r, "C17.b")
+	ruleNewLogShape(w, r, "C17.c")
 }
 
 func propC18(w *World, r *Run) {
@@ -268,6 +287,9 @@ func propC19(w *World, r *Run) {
 	ruleCapsAndTimeouts(w, r, "C19.e", "C19.f")
 	ruleNeverGivesUp(w, r, "C19.f")
 	ruleInitBeforeUse(w, r, "C19.g")
+	ruleCloseAlways(w, r, analyseUpdate(w, r), "C19.h")
+	ruleNoNestedStorage(w, r, analyseUpdate(w, r), "C19.h")
+	ruleCloseIsRollback(w, r, "C19.h")
 	// unbounded reads: listed, not decided
 	var unb []string
 	for fn := range reach {
